@@ -723,7 +723,7 @@ func monitorMConn(o *rec) {
 	if !mconnSelfTest(o) {
 		return
 	}
-	n := lib.Pick(120, 2500)
+	n := lib.Pick(120, 2000)
 	lib.Parallel(n, lib.Pick(24, 32), func(i int) {
 		runSession(o, genSession(i))
 	})
